@@ -38,17 +38,18 @@ let field key toks =
 
 let fieldi key toks = match field key toks with Some v -> (try int_of_string v with _ -> -1) | None -> -1
 
+let is_pattern = function "pubsub" | "event" | "reqres" | "blackboard" | "reqres2" -> true | _ -> false
 let pattern_of = function
   | "pubsub" -> Some M.PubSub | "event" -> Some M.Event | "reqres" -> Some M.ReqRes | "blackboard" -> Some M.Blackboard
   | _ -> None
 
 (* per (pattern, two nodes): instance, handles, fuel, well-formedness *)
 let cache : (string * bool, (M.inst * M.nat list * M.nat * bool)) Hashtbl.t = Hashtbl.create 8
-let instance pname p two =
+let instance pname two =
   match Hashtbl.find_opt cache (pname, two) with
   | Some v -> v
   | None ->
-    let (g, h) = M.scenario p two in
+    let (g, h) = (match pattern_of pname with Some p -> M.scenario p two | None -> M.scenario_rr2) in
     let v = (g, h, M.inst_fuel M.keep_edges g, M.wf_instb M.keep_edges g h && M.acyclicb M.keep_edges) in
     Hashtbl.add cache (pname, two) v; v
 
@@ -67,7 +68,8 @@ let class_of kind detail =
       not (String.length t >= 6 && String.sub t 0 6 = "after=") && not (String.length t >= 6 && String.sub t 0 6 = "order=")) parts in
   let rec strip = function
     | "canary" :: _ -> ["canary"]
-    | x :: r -> (if String.length x >= 9 && String.sub x 0 9 = "received-" then "received" else x) :: strip r
+    | x :: r -> (if String.length x >= 9 && String.sub x 0 9 = "received-" then
+                   (if String.length x >= 11 && String.sub x 0 11 = "received-[]" then "received-nothing" else "received") else x) :: strip r
     | [] -> [] in
   kind ^ "|" ^ String.concat ":" (strip keep)
 
@@ -142,10 +144,10 @@ let () =
          bump opcount ("cases_" ^ pname ^ "_" ^ variant);
          cur_hdr := String.concat "/" [variant; pname; soi (fieldi "nodes" toks); order];
          Hashtbl.replace distinct (pname ^ soi (fieldi "nodes" toks) ^ order) ();
-         (match pattern_of pname with
-          | None -> mismatch "model" short "unknown-pattern" "-" pname
-          | Some p ->
-            let (g, h, fuel, wf) = instance pname p two in
+         (match is_pattern pname with
+          | false -> mismatch "model" short "unknown-pattern" "-" pname
+          | true ->
+            let (g, h, fuel, wf) = instance pname two in
             if not wf then mismatch "model" short "harness-graph-is-not-a-well-formed-instance-of-the-generated-table" "wf" "not-wf";
             if List.length h <> fieldi "slots" toks then
               mismatch "model" short "slot-count" (soi (List.length h)) (soi (fieldi "slots" toks));
@@ -195,7 +197,10 @@ let () =
                    | None -> ());
                   if res <> "ok" then begin
                     bump extra ("survivor_failed_" ^ name_of c j);
-                    mismatch "spec" line ("survivor:" ^ name_of c j ^ ":" ^ res ^ ":after=" ^ after) "ok" res
+                    let held = if Array.exists (fun n -> n = "response_b") c.names
+                                  && not (List.exists (fun k -> name_of c k = "response_b") c.dropped)
+                               then ":while-response_b-is-held" else "" in
+                    mismatch "spec" line ("survivor:" ^ name_of c j ^ ":" ^ res ^ held ^ ":after=" ^ after) "ok" res
                   end) probed
             | _ -> mismatch "model" line "unparsed-line" "-" "-")
        end else if String.length line >= 8 && String.sub line 0 8 = "O end = " then begin
